@@ -67,11 +67,28 @@ def _grid(d, h, w):
         row = []
         for c in range(w):
             k += 1
-            t = d.pick(8)
+            t = d.pick(11)
             if t == 0:
                 row.append(None)
             elif t == 1:
-                row.append(d.choice(['x', 'abc', 'n/a', 'q1']))
+                row.append(d.choice(['x', 'abc', 'n/a', 'q1', u'\xe9t\xe9',
+                                     'TRUE?', 'e5', '1,5x']))
+            elif t == 8:
+                # zeros and integer-valued floats
+                row.append(d.choice([0, 0.0, -0.0, float(base + 3 * k)]))
+            elif t == 9:
+                # a NUMBER PRODUCED BY A FORMULA: ['f', source, value]
+                v = base + 3 * k
+                row.append(d.choice([
+                    ['f', '=%d*2' % v, 2 * v],
+                    ['f', '=%d/4' % v, v / 4.0],
+                    ['f', '=-%d' % v, -v],
+                    ['f', '=%d-%d' % (v, v), 0]]))
+            elif t == 10:
+                # a TEXT produced by a formula
+                row.append(d.choice([['f', '="a"&"b"', 'ab'],
+                                     ['f', '="x"', 'x'],
+                                     ['f', '=1&"z"', '1z']]))
             else:
                 v = base + 3 * k
                 if t == 2:
@@ -168,7 +185,13 @@ def enumerate_cases(tier, shard=0, nshards=1):
 
 # ------------------------------------------------------------------ oracle
 
+def val(v):
+    """the value of a grid entry (formula cells are ['f', source, value])"""
+    return v[2] if isinstance(v, list) else v
+
+
 def is_number(v):
+    v = val(v)
     return isinstance(v, (int, float)) and not isinstance(v, bool)
 
 
@@ -194,7 +217,7 @@ def fold(fn, grid, args, grid2=None):
         else:
             for v in cells_of(grid2 if kind == 'r2' else grid, a):
                 if is_number(v):
-                    nums.append(v)
+                    nums.append(val(v))
                 if v is not None:
                     nonempty += 1
     if fn == 'COUNT':
@@ -215,7 +238,8 @@ def _cells(grid, sheet='Sheet1', r0=0, c0=0):
     for r, row in enumerate(grid):
         for c, v in enumerate(row):
             if v is not None:
-                out['%s!%s' % (sheet, addr(r + r0, c + c0))] = v
+                out['%s!%s' % (sheet, addr(r + r0, c + c0))] = (
+                    v[1] if isinstance(v, list) else v)
     return out
 
 
@@ -255,7 +279,7 @@ def _judge(case):
     flat = [v for row in grid for v in row] + (
         [v for row in grid2 for v in row] if grid2 else [])
     nnum = sum(1 for v in flat if is_number(v))
-    has_gap = any(v is None or isinstance(v, str) for v in flat)
+    has_gap = any(v is None or isinstance(val(v), str) for v in flat)
     res.labels = (fn, 'args:%d' % min(len(args), 6),
                   'gap' if has_gap else 'dense') + (
                       ('two-sheets',) if grid2 else ())
@@ -345,7 +369,7 @@ def _judge_sp(case, res):
     has_gap = any(not is_number(v) for v in flat_all)
     if same:
         total = math.fsum(
-            math.prod((v if is_number(v) else 0) for v in tup)
+            math.prod((val(v) if is_number(v) else 0) for v in tup)
             for tup in zip(*vals))
         want = ('N', float(total))
     else:
